@@ -27,6 +27,7 @@ PROPS['C02']={
    {'name':'step_authorization','module':'harness.C02','cls':'StepAuthorization','quick':{'nfun':2,'nsig':2},'thorough':{'nfun':3,'nsig':1,'unknown_pubkey':True}},
    {'name':'step_authorization_two_signatures','module':'harness.C02','cls':'StepAuthorization','tier_only':'thorough','quick':{},'thorough':{'nfun':2,'nsig':2,'unknown_pubkey':True}},
    {'name':'two_steps','module':'harness.C02','cls':'StepAuthorization','tier_only':'thorough','quick':{},'thorough':{'nfun':2,'nsig':1,'two_steps':True}},
+   {'name':'two_steps_small','module':'harness.C02','cls':'StepAuthorization','quick':{'nfun':2,'nsig':1,'two_steps':True,'small':True},'thorough':{'nfun':3,'nsig':1,'two_steps':True,'small':True}},
    {'name':'duplicate_step_names','module':'harness.C02','cls':'StepAuthorization','quick':{'nfun':2,'nsig':1,'same_name':True},'thorough':{'nfun':2,'nsig':2,'same_name':True}},
  ]}
 
